@@ -39,7 +39,14 @@ def tpl_flusho(x2, a2, x3, a3, x4, a4, _twin=False):
     return _run(2, 3, 2, [(NOP, 0), (x2, a2), (x3, a3), (x4, a4)], 9, 2, _twin)
 
 
-def _run(size, cb, n1, steps, t, pro, _twin):
+def tpl_flushm(size, k, c, x2, a2, x3, a3, x4, a4, _twin=False):
+    """Prologue: a map over three elements whose argument iterable breaks when asked for element k - its meta task has
+    *failed* (not been cancelled) by the time of the flushes.  flush(return_exceptions=True) must still never raise and
+    must forget exactly the finished tasks; flush(False) may pass the iterable's own exception on."""
+    return _run(size, 3, k, [(NOP, 0), (x2, a2), (x3, a3), (x4, a4)], 9, 3, _twin, c)
+
+
+def _run(size, cb, n1, steps, t, pro, _twin, conc=1):
     w = World("c13.flush")
     code = 0
     try:
@@ -77,7 +84,7 @@ def _run(size, cb, n1, steps, t, pro, _twin):
                     # (a CancelledError escaped one of its callbacks); it has then not returned and forgets nothing
                     if not any(r["task"].done() and r["task"].cancelled() for r in w.W):
                         w.fail(1308)
-                elif not any(exc is r.get("exc") for r in w.W):
+                elif not any(exc is r.get("exc") for r in w.W) and not any(exc is r.get("iter_exc") for r in it.reqs):
                     w.fail(1308)
 
         def idle():
@@ -93,7 +100,10 @@ def _run(size, cb, n1, steps, t, pro, _twin):
             return t_
         it.flush = flush
         try:
-            it.apply(n1)
+            if pro == 3:
+                it.map(3, conc, iterfail=n1)
+            else:
+                it.apply(n1)
             if pro == 1:
                 w.settle()
                 it.cancel(0)
@@ -118,7 +128,10 @@ def _run(size, cb, n1, steps, t, pro, _twin):
                     if sum(1 for c in w.cb if c[0] == "end" and c[1] == i) != 1:
                         code = 1306
         if _twin and not code and not w.excluded:
-            if any(f.done() and s["finished"] for f, _, s in it.flushes) and len(w.W) >= 2:
+            if pro == 3:
+                if any(f.done() and s["finished"] for f, _, s in it.flushes) and any(r.get("iter_raised") for r in it.reqs):
+                    code = 77
+            elif any(f.done() and s["finished"] for f, _, s in it.flushes) and len(w.W) >= 2:
                 code = 77
         return code
     finally:
@@ -155,6 +168,16 @@ def families(tier):
                        ["0 <= x2 <= %d" % NOP, "-1 <= a2 <= 2", "0 <= x3 <= %d" % NOP, "-1 <= a3 <= 2", "0 <= x4 <= %d" % NOP, "-1 <= a4 <= 2"]),
                   parts=parts_product(x2=(3, 4, 5, NOP)) if not thorough else parts_product(x2=range(NOP + 1), x3=range(NOP + 1)),
                   twin_pre=["x2 == 4"], twin_args=[4, 0, NOP, 0, NOP, 0])
-    return [famc, famo, Family(name="flush", fn="tpl_flush", params=P, pre=pre, parts=parts,
+    PM = ["size", "k", "c", "x2", "a2", "x3", "a3", "x4", "a4"]
+    prem = ["size >= 1", "1 <= k <= 2", "1 <= c <= 2", "0 <= x2 < %d" % NOP, "0 <= x3 <= %d" % NOP, "0 <= x4 <= %d" % NOP]
+    if not thorough:
+        prem += ["size <= 3", "-1 <= a2 <= 1", "-1 <= a3 <= 1", "a4 == 0", "x3 == 1 or x3 == 3 or x3 == 4 or x3 == 5", "x4 == 4 or x4 == %d" % NOP]
+        partsm = parts_product(k=(1, 2), x2=(0, 1, 2, 4, 5))
+    else:
+        prem += ["-1 <= a2 <= 2", "-1 <= a3 <= 2", "-1 <= a4 <= 2"]
+        partsm = parts_product(k=(1, 2), c=(1, 2), x2=range(NOP), x3=range(NOP + 1))
+    famm = Family(name="flushm", fn="tpl_flushm", params=PM, pre=prem, parts=partsm,
+                  twin_pre=["k == 1", "c == 1", "x2 == 1", "x3 == 3", "x4 == 4"], twin_args=[2, 1, 1, 1, 0, 3, 0, 4, 0])
+    return [famc, famo, famm, Family(name="flush", fn="tpl_flush", params=P, pre=pre, parts=parts,
                    twin_pre=["cb == 3", "n1 == 2", "x2 == 1", "x3 == 3", "x4 == 4", "x5 == %d" % NOP],
                    twin_args=[2, 3, 2, 1, 0, 3, 0, 4, 0, NOP, 0, 5])]
